@@ -168,6 +168,12 @@ ANALYSES.update({
     "aero_center_all": lambda sc, n: sc.aero_center(),
     "derivatives_list": lambda sc, n: sc.derivatives(aircraft=list(sc._airplanes), **ALL_FRAMES),
     "target_CL_noset_default_controls": lambda sc, n: sc.target_CL(CL=0.4, set_state=False),
+    # frame selections other than "everything"
+    "stability_derivatives_no_wind_frame": lambda sc, n: sc.stability_derivatives(aircraft=n, wind_frame=False),
+    "stability_derivatives_stab_only": lambda sc, n: sc.stability_derivatives(aircraft=n, body_frame=False, stab_frame=True, wind_frame=False),
+    "damping_derivatives_body_only": lambda sc, n: sc.damping_derivatives(aircraft=n, wind_frame=False),
+    "control_derivatives_wind_only": lambda sc, n: sc.control_derivatives(aircraft=n, body_frame=False),
+    "derivatives_no_wind_frame": lambda sc, n: sc.derivatives(wind_frame=False, stab_frame=True),
 })
 MULTI_PREFERRED = ("stability_derivatives_all", "damping_derivatives_all", "control_derivatives_all", "state_derivatives_all", "aero_center_all",
                    "derivatives_list")
